@@ -84,7 +84,7 @@ FLEN = vp.T(1, 2)
 TEMPL = [
   ("S\t{}\t*", "gfa1"), ("S\ta\t{}", "gfa1"), ("S\ta\t*\tLN:i:{}", "gfa1"), ("S\ta\t*\t{}", "gfa1"), ("S\ta\t*\t{}:i:1", "gfa1"),
   ("L\t{}\t+\tb\t-\t*", "gfa1"), ("L\ta\t{}\tb\t-\t*", "gfa1"), ("L\ta\t+\tb\t-\t{}", "gfa1"), ("C\ta\t+\tb\t-\t{}\t*", "gfa1"),
-  ("P\t{}\ta+,b-\t*", "gfa1"), ("P\tp\t{}\t*", "gfa1"), ("P\tp\ta+,b-\t{}", "gfa1"), ("P\tp\ta+,b-,a+\t{}", "gfa1"), ("H\tVN:Z:{}", None), ("#{}", None), ("{}\ta\tb", None),
+  ("P\t{}\ta+,b-\t*", "gfa1"), ("P\tp\t{}\t*", "gfa1"), ("P\tp\ta+,b-\t{}", "gfa1"), ("P\tp\ta+,b-,a+\t{}", "gfa1"), ("P\tp\ta+,b-,a+\t1M{}", "gfa1"), ("H\tVN:Z:{}", None), ("#{}", None), ("{}\ta\tb", None),
   ("S\t{}\t5\t*", "gfa2"), ("S\ta\t{}\t*", "gfa2"), ("S\ta\t5\t{}", "gfa2"), ("E\t{}\ta+\tb-\t0\t1\t0\t1\t*", "gfa2"), ("E\te\t{}\tb-\t0\t1\t0\t1\t*", "gfa2"),
   ("E\te\ta+\tb-\t{}\t1\t0\t1\t*", "gfa2"), ("E\te\ta+\tb-\t0\t{}\t0\t1\t*", "gfa2"), ("E\te\ta+\tb-\t0\t1\t0\t1\t{}", "gfa2"),
   ("G\tg\ta+\tb-\t{}\t*", "gfa2"), ("G\tg\ta+\tb-\t5\t{}", "gfa2"), ("F\ta\t{}\t0\t1\t0\t1\t*", "gfa2"), ("O\to\t{}", "gfa2"), ("U\tu\t{}", "gfa2"),
@@ -120,6 +120,14 @@ def h_field_mutation(ti: int, n: int, c0: int, c1: int, c2: int, vl: int) -> boo
   _only_gfapy(lambda: l.validate())
   _only_gfapy(lambda: str(l.clone()))
   _only_gfapy(lambda: l.to_list())
+  _only_gfapy(lambda: l.__repr__())
+  _only_gfapy(lambda: l == l.clone())
+  # hash(line): the builtin raises TypeError unless __hash__ returns an int (called directly: CrossHair models hash())
+  try:
+    hv = l.__hash__()
+    if not isinstance(hv, int): return False
+  except gfapy.Error:
+    pass
   # the same text inside a Gfa that defines the segments it may name (reference initialisation, traversals)
   def connect():
     g = gfapy.Gfa(vlevel=level, version=version)
